@@ -803,6 +803,15 @@ impl HistogramVec {
     /// [`HistogramOpts`] and partitioned by the given label names. At least
     /// one label name must be provided.
     pub fn new(opts: HistogramOpts, label_names: &[&str]) -> Result<HistogramVec> {
+        // `le` is reserved for the bucket label. Refuse it here rather than
+        // only when the first child is requested.
+        for name in label_names {
+            check_bucket_label(name)?;
+        }
+        for name in opts.common_opts.const_labels.keys() {
+            check_bucket_label(name)?;
+        }
+
         let variable_names = label_names.iter().map(|s| (*s).to_owned()).collect();
         let opts = opts.variable_labels(variable_names);
         let metric_vec =
